@@ -24,7 +24,13 @@ PLAN = {
 
 def generate(seed, stratum, tier):
   rng = random.Random(seed)
-  return cc.gen_chart_scenario(rng, ops=('ev', 'is_in', 'child'), weights=(3, 2, 2), nops=(6, 36))
+  sc = cc.gen_chart_scenario(rng, ops=('ev', 'is_in', 'child'), weights=(3, 2, 2), nops=(6, 36))
+  if rng.random() < 0.25:
+    # the chart is started again somewhere else later on: the queries answer from the path that is active then
+    names = [st['name'] for st in sc['spec']['states']]
+    pos = rng.randrange(1, len(sc['ops']) + 1)
+    sc['ops'][pos:pos] = [['restart', rng.choice(names)], [rng.choice(['is_in', 'child']), rng.choice(names + ['top'])]]
+  return sc
 
 
 shrink_candidates = cc.shrink_chart
